@@ -19,6 +19,7 @@
 // GCC treats the storage as clobbered at the start of the constructor and deletes the pattern, so that a member the default
 // constructor leaves uninitialised would not really hold "previous memory contents" when the library reads it
 #pragma GCC optimize("no-lifetime-dse")
+#include "harness/value_semantics.hpp"
 #include "harness/geod_common.hpp"
 #include <GeographicLib/Rhumb.hpp>
 #include <new>
@@ -638,8 +639,8 @@ static RhumbPair& rhumbs(double a, double f, bool want_series) {
   auto key = std::make_pair(a, f);
   if (cache.size() > 64 && !cache.count(key)) cache.clear();
   RhumbPair& p = cache[key];
-  if (!p.exact) p.exact.reset(new Rhumb(a, f, true));
-  if (want_series && !p.series) p.series.reset(new Rhumb(a, f, false));
+  if (!p.exact) p.exact.reset(vh::detached_new<Rhumb>([&] { return Rhumb(a, f, true); }, [&] { return Rhumb(a * 1.25, f > 0.5 ? 0.01 : 0.25, true); }));       // detached copies: harness/value_semantics.hpp
+  if (want_series && !p.series) p.series.reset(vh::detached_new<Rhumb>([&] { return Rhumb(a, f, false); }, [&] { return Rhumb(a * 1.25, 0.005, false); }));
   return p;
 }
 static void rhumb_family(Ctx& c, const Base& k, const Inv& ki, const Rhumb& rh, int solver) {
